@@ -155,12 +155,88 @@ func DrawType(t *rapid.T, cfg TypeCfg) *TypeDesc {
 	}
 	g := &typeGen{cfg: cfg, budget: 24}
 	var td TypeDesc
-	if cfg.TopStruct {
+	if cfg.TopStruct || rapid.IntRange(0, 2).Draw(t, "topstruct") == 0 {
+		// structs are where most of the fold/unfold logic lives
 		td = g.structType(t, 0)
 	} else {
 		td = g.typ(t, 0)
 	}
 	return &td
+}
+
+// components lists the struct, map and slice types a described type is built of.
+func components(td *TypeDesc, out *[]*TypeDesc) {
+	switch td.Kind {
+	case "struct":
+		*out = append(*out, td)
+		for i := range td.Fields {
+			components(&td.Fields[i].Type, out)
+		}
+	case "ptr", "slice", "map", "array":
+		if td.Kind == "map" {
+			*out = append(*out, td)
+		}
+		components(td.Elem, out)
+	case "pool":
+		*out = append(*out, td)
+	}
+}
+
+// DrawRelatedType draws a type for a history of values handled by ONE instance:
+// half of the time a type that shares a component with an earlier type of the
+// history (the same type again, a wrapper around one of its struct/map
+// components, or a sibling struct inlining the same component), because
+// per-instance caches are keyed by component types — what an instance compiled
+// for one value is what it reuses for the next.
+func DrawRelatedType(t *rapid.T, prev []*TypeDesc, cfg TypeCfg) *TypeDesc {
+	var comps []*TypeDesc
+	for _, p := range prev {
+		components(p, &comps)
+	}
+	if len(comps) == 0 || rapid.Bool().Draw(t, "fresh") {
+		return DrawType(t, cfg)
+	}
+	c := *comps[rapid.IntRange(0, len(comps)-1).Draw(t, "comp")]
+	g := &typeGen{cfg: cfg, budget: 6}
+	canInline := cfg.Tags && !cfg.NoInline && inlineable(&c, cfg.InlineOnlyStruct)
+	field := func() FieldDesc {
+		f := FieldDesc{Name: "F", Type: c}
+		switch w := rapid.IntRange(0, 5).Draw(t, "relf"); {
+		case w < 2 && canInline:
+			f.Tag = `struct:",inline"`
+		case w < 4 && canInline && !cfg.InlineOnlyStruct && c.Kind != "pool":
+			f.Type = TypeDesc{Kind: "ptr", Elem: &c}
+			f.Tag = `struct:",inline"`
+		case w == 4:
+			f.Type = TypeDesc{Kind: "ptr", Elem: &c}
+			if cfg.Tags {
+				f.Tag = `struct:"f,omitempty"`
+			}
+		}
+		return f
+	}
+	switch w := rapid.IntRange(0, 9).Draw(t, "rel"); {
+	case w == 0:
+		return &c
+	case w == 1:
+		return &TypeDesc{Kind: "ptr", Elem: &c}
+	case w == 2:
+		return &TypeDesc{Kind: "slice", Elem: &c}
+	case w == 3:
+		return &TypeDesc{Kind: "map", Elem: &c}
+	default:
+		// a struct around the component; the optional neighbours make two draws
+		// on the same component different struct types
+		td := &TypeDesc{Kind: "struct"}
+		if rapid.Bool().Draw(t, "relpre") {
+			td.Fields = append(td.Fields, FieldDesc{Name: "Pre", Type: g.scalar(t)})
+		}
+		td.Fields = append(td.Fields, field())
+		if rapid.Bool().Draw(t, "relpost") {
+			td.Fields = append(td.Fields, FieldDesc{Name: "Post", Type: g.scalar(t)})
+		}
+		return td
+	}
 }
 
 type typeGen struct {
@@ -180,25 +256,25 @@ func (g *typeGen) typ(t *rapid.T, depth int) TypeDesc {
 	}
 	w := rapid.IntRange(0, 99).Draw(t, "tw")
 	switch {
-	case w < 34:
+	case w < 30:
 		return g.scalar(t)
-	case w < 46:
+	case w < 42:
 		e := g.typ(t, depth+1)
 		return TypeDesc{Kind: "slice", Elem: &e}
-	case w < 56:
+	case w < 52:
 		e := g.typ(t, depth+1)
 		return TypeDesc{Kind: "map", Elem: &e}
-	case w < 68:
+	case w < 64:
 		e := g.typ(t, depth+1)
 		return TypeDesc{Kind: "ptr", Elem: &e}
-	case w < 76:
+	case w < 72:
 		if g.cfg.NoIface {
 			return g.scalar(t)
 		}
 		return TypeDesc{Kind: "iface"}
-	case w < 90:
+	case w < 86:
 		return g.structType(t, depth)
-	case w < 94:
+	case w < 90:
 		if g.cfg.Arrays {
 			e := g.typ(t, depth+1)
 			return TypeDesc{Kind: "array", Len: rapid.IntRange(0, 3).Draw(t, "alen"), Elem: &e}
@@ -263,6 +339,10 @@ func (g *typeGen) structType(t *rapid.T, depth int) TypeDesc {
 			}
 			f.Type = pt
 			f.Tag = `struct:"` + rapid.SampledFrom([]string{",omitempty", "o,omitempty", ""}).Draw(t, "optptrtag") + `"`
+		} else if g.cfg.Tags && !g.cfg.NoInline && depth < g.cfg.MaxDepth-1 && rapid.IntRange(0, 11).Draw(t, "nestinl") == 0 {
+			// inline inside inline, the inlined struct (usually) not at offset 0:
+			// struct{...; F struct{MPi T; I struct{NiX0 T; ...} `inline`; MQi T} `inline`}
+			f.Type, f.Tag = g.nestedInline(t, depth, i)
 		} else if g.cfg.Pool && g.cfg.Tags && rapid.IntRange(0, 9).Draw(t, "zeroer") == 0 {
 			// IsZeroer types (value and pointer receiver, by value and by
 			// pointer) are what omitempty consults: make them common
@@ -280,6 +360,36 @@ func (g *typeGen) structType(t *rapid.T, depth int) TypeDesc {
 	return td
 }
 
+func (g *typeGen) nestedInline(t *rapid.T, depth, idx int) (TypeDesc, string) {
+	inl := func() string {
+		return `struct:"` + rapid.SampledFrom([]string{",inline", ",squash"}).Draw(t, "nitag") + `"`
+	}
+	plain := func() string {
+		return rapid.SampledFrom([]string{"", "", `struct:",omitempty"`}).Draw(t, "nitag2")
+	}
+	inner := TypeDesc{Kind: "struct"}
+	for j, n := 0, rapid.IntRange(1, 3).Draw(t, "nin"); j < n; j++ {
+		inner.Fields = append(inner.Fields, FieldDesc{Name: fmt.Sprintf("N%dX%d", idx, j), Type: g.typ(t, depth+2), Tag: plain()})
+	}
+	mid := TypeDesc{Kind: "struct"}
+	if rapid.IntRange(0, 3).Draw(t, "nipre") > 0 {
+		mid.Fields = append(mid.Fields, FieldDesc{Name: fmt.Sprintf("MP%d", idx), Type: g.scalar(t), Tag: plain()})
+	}
+	it := inner
+	if !g.cfg.InlineOnlyStruct && rapid.IntRange(0, 2).Draw(t, "niptr") == 0 {
+		it = TypeDesc{Kind: "ptr", Elem: &inner}
+	}
+	mid.Fields = append(mid.Fields, FieldDesc{Name: "I", Type: it, Tag: inl()})
+	if rapid.Bool().Draw(t, "nipost") {
+		mid.Fields = append(mid.Fields, FieldDesc{Name: fmt.Sprintf("MQ%d", idx), Type: g.scalar(t), Tag: plain()})
+	}
+	mt := mid
+	if !g.cfg.InlineOnlyStruct && rapid.IntRange(0, 2).Draw(t, "niptr2") == 0 {
+		mt = TypeDesc{Kind: "ptr", Elem: &mid}
+	}
+	return mt, inl()
+}
+
 func inlineable(td *TypeDesc, onlyStruct bool) bool {
 	switch td.Kind {
 	case "struct":
@@ -289,7 +399,7 @@ func inlineable(td *TypeDesc, onlyStruct bool) bool {
 	case "ptr":
 		return !onlyStruct && inlineable(td.Elem, onlyStruct) && td.Elem.Kind != "iface"
 	case "pool":
-		return !onlyStruct && (td.Pool == "FolderObj" || td.Pool == "FolderPtr" || td.Pool == "NMapInt" || td.Pool == "NMapAny" || td.Pool == "WithEmb")
+		return !onlyStruct && (td.Pool == "FolderObj" || td.Pool == "FolderPtr" || td.Pool == "NMapInt" || td.Pool == "NMapAny" || td.Pool == "WithEmb" || td.Pool == "FCounts")
 	}
 	return false
 }
